@@ -66,7 +66,7 @@ PLAYBACK_RE = re.compile(r"Concrete playback unit test for `([^`]+)`:\s*```\s*(.
 
 def kani_playback_test(engine_dir, engine, harness, features, timeout):
     """Asks Kani for the concrete-playback unit test of a failing harness.  Returns (test_name, test_src) or None."""
-    cmd = ["cargo", "kani", "--target-dir", os.path.join(BUILD, engine), "-Z", "concrete-playback",
+    cmd = ["cargo", "kani", "-Z", "stubbing", "--target-dir", os.path.join(BUILD, engine), "-Z", "concrete-playback",
            "--concrete-playback=print", "--exact", "--harness", harness]
     if features:
         cmd += ["--features", ",".join(features)]
